@@ -124,11 +124,16 @@ structure Shape (hist : List Cmd) (i : Img) : Prop where
   meta_le : i.dMeta ≤ hist.length
 
 theorem recover_file_shape {hist : List Cmd} {i : Img} (h : Shape hist i) :
-    sameKv (recover .file i).1 (ref hist hist.length) ∧ (recover .file i).2 = i.dMeta := by
+    sameKv (recover .file i).1 (ref hist hist.length) ∧
+      (recover .file i).2 = (if i.wal.isEmpty then i.dMeta else i.n) := by
   obtain ⟨w0, d, h1, h2, hw, hd⟩ := h.ex
-  refine ⟨?_, rfl⟩
-  simp only [recover, hw]
-  exact replay_tail hist w0 d h1 h2 _ hd
+  refine ⟨?_, ?_⟩
+  · simp only [recover, hw]
+    exact replay_tail hist w0 d h1 h2 _ hd
+  · simp only [recover]
+    split
+    · rfl
+    · have := h.meta_le; rw [h.n_eq]; omega
 
 /-- Invariant of the running engine. -/
 structure Good (s : St) : Prop where
@@ -137,13 +142,24 @@ structure Good (s : St) : Prop where
   meta_le : s.dMeta ≤ s.cmds.length
   disk : s.eng = .file → ∃ w0 d, w0 ≤ d ∧ d ≤ s.cmds.length ∧ s.wal = (recs [] s.cmds).drop w0 ∧
         sameKv s.dData (ref s.cmds d)
+  /-- File: with an empty WAL the persisted index is current (the WAL is only cleared by a checkpoint). -/
+  wal_meta : s.eng = .file → s.wal = [] → s.dMeta = s.cmds.length
+  /-- RocksDB: the index travels with the data. -/
+  rocks_meta : s.eng = .rocks → s.dMeta = s.cmds.length
+
+def tornName (name : String) : Prop :=
+  name = "persist_data:truncated" ∨ name = "persist_metadata:truncated"
 
 /-- what the theorems say about one crash image, relative to the final history `final`. -/
 def ImgOK (eng : Eng) (final : List Cmd) (i : Img) : Prop :=
   i.n ≤ final.length ∧
   (i.name = "persist_data:truncated" ∨
-    ((eng = .file → Shape (final.take i.n) i) ∧
-     (eng = .rocks → sameKv i.dData (ref final i.n) ∧ i.dMeta ≤ i.n)))
+    ((eng = .file → Shape (final.take i.n) i ∧
+        (i.wal = [] → i.dMeta = i.n ∨ i.name = "persist_metadata:truncated")) ∧
+     (eng = .rocks → sameKv i.dData (ref final i.n) ∧ i.dMeta = i.n)))
+
+theorem ref_take (final : List Cmd) (n k : Nat) (h : k ≤ n) : ref (final.take n) k = ref final k := by
+  simp [ref_eq, List.take_take, Nat.min_eq_left h]
 
 theorem ImgOK_extend {eng : Eng} {final : List Cmd} {i : Img} (t : List Cmd) (h : ImgOK eng final i) :
     ImgOK eng (final ++ t) i := by
@@ -157,9 +173,6 @@ theorem ImgOK_extend {eng : Eng} {final : List Cmd} {i : Img} (t : List Cmd) (h 
     · have : ref (final ++ t) i.n = ref final i.n := by
         simp [ref_eq, List.take_append_of_le_length hn]
       rw [this]; exact hr e
-
-theorem ref_take (final : List Cmd) (n k : Nat) (h : k ≤ n) : ref (final.take n) k = ref final k := by
-  simp [ref_eq, List.take_take, Nat.min_eq_left h]
 
 theorem ref_self (cmds : List Cmd) : ref cmds cmds.length = applyAll [] cmds := by
   simp [ref_eq]
@@ -178,9 +191,10 @@ theorem drop_recs_all (cmds : List Cmd) : (recs [] cmds).drop cmds.length = [] :
 /-- a File image built from parts that satisfy the shape conditions. -/
 theorem imgOK_file (cmds : List Cmd) (name : String) (dData : AMap) (dMeta : Nat) (wal : List Cmd)
     (hm : dMeta ≤ cmds.length)
-    (hex : ∃ w0 d, w0 ≤ d ∧ d ≤ cmds.length ∧ wal = (recs [] cmds).drop w0 ∧ sameKv dData (ref cmds d)) :
+    (hex : ∃ w0 d, w0 ≤ d ∧ d ≤ cmds.length ∧ wal = (recs [] cmds).drop w0 ∧ sameKv dData (ref cmds d))
+    (hwm : wal = [] → dMeta = cmds.length ∨ name = "persist_metadata:truncated") :
     ImgOK .file cmds { name, n := cmds.length, dData, dMeta, wal } := by
-  refine ⟨Nat.le_refl _, Or.inr ⟨fun _ => ?_, fun e => nomatch e⟩⟩
+  refine ⟨Nat.le_refl _, Or.inr ⟨fun _ => ⟨?_, hwm⟩, (fun e => nomatch e)⟩⟩
   simp only [List.take_length]
   exact ⟨rfl, hex, hm⟩
 
@@ -188,13 +202,18 @@ theorem imgOK_file (cmds : List Cmd) (name : String) (dData : AMap) (dMeta : Nat
 theorem img_ok {s : St} (g : Good s) (name : String) : ImgOK s.eng s.cmds (img s name) := by
   obtain ⟨eng, cmds, data, la, due, dData, dMeta, wal⟩ := s
   cases eng with
-  | file => exact imgOK_file cmds name dData dMeta wal g.meta_le (g.disk rfl)
+  | file =>
+    exact imgOK_file cmds name dData dMeta wal g.meta_le (g.disk rfl) (fun h => Or.inl (g.wal_meta rfl h))
   | rocks =>
     unfold ImgOK
-    exact ⟨Nat.le_refl _, Or.inr ⟨(fun e => nomatch e), fun _ => ⟨g.data_ok, g.meta_le⟩⟩⟩
+    exact ⟨Nat.le_refl _, Or.inr ⟨(fun e => nomatch e), fun _ => ⟨g.data_ok, g.rocks_meta rfl⟩⟩⟩
 
 theorem good_init (eng : Eng) : Good ({ eng } : St) :=
-  ⟨rfl, sameKv_refl _, Nat.le_refl _, fun _ => ⟨0, 0, Nat.le_refl _, Nat.le_refl _, rfl, sameKv_refl _⟩⟩
+  ⟨rfl, sameKv_refl _, Nat.le_refl _, fun _ => ⟨0, 0, Nat.le_refl _, Nat.le_refl _, rfl, sameKv_refl _⟩,
+    fun _ _ => rfl, fun _ => rfl⟩
+
+/-- a non-empty list is not `[]`. -/
+theorem append_singleton_ne_nil {α} (l : List α) (a : α) : l ++ [a] ≠ [] := by simp
 
 /-- File `checkpoint()` from a good state: good afterwards, every image but the first has the shape. -/
 theorem ckptSteps_ok {s : St} (g : Good s) (he : s.eng = .file) :
@@ -207,27 +226,28 @@ theorem ckptSteps_ok {s : St} (g : Good s) (he : s.eng = .file) :
   have hla : la = cmds.length := g.la_eq
   have hdata : sameKv data (ref cmds cmds.length) := g.data_ok
   have hmeta : dMeta ≤ cmds.length := g.meta_le
+  have hwm : wal = [] → dMeta = cmds.length := g.wal_meta rfl
   have hw0 : w0 ≤ cmds.length := Nat.le_trans h1 h2
   have exOld : ∃ w0 d, w0 ≤ d ∧ d ≤ cmds.length ∧ wal = (recs [] cmds).drop w0 ∧
       sameKv data (ref cmds d) := ⟨w0, cmds.length, hw0, Nat.le_refl _, hw, hdata⟩
   have exNew : ∃ w0 d, w0 ≤ d ∧ d ≤ cmds.length ∧ ([] : List Cmd) = (recs [] cmds).drop w0 ∧
       sameKv data (ref cmds d) :=
     ⟨cmds.length, cmds.length, Nat.le_refl _, Nat.le_refl _, (drop_recs_all cmds).symm, hdata⟩
-  refine ⟨⟨hla, hdata, by simp [ckptSteps, hla], fun _ => exNew⟩, rfl, rfl, ?_⟩
+  have hlan : la ≤ cmds.length := by rw [hla]; exact Nat.le_refl _
+  refine ⟨⟨hla, hdata, by simp [ckptSteps, hla], fun _ => exNew, fun _ _ => by simp [ckptSteps, hla],
+    (fun e => nomatch e)⟩, rfl, rfl, ?_⟩
   intro i hi
   simp only [ckptSteps, img, List.mem_cons, List.mem_nil_iff, or_false] at hi
   rcases hi with h | h | h | h | h
   · rw [h]; exact ⟨Nat.le_refl _, Or.inl rfl⟩
-  · rw [h]; exact imgOK_file cmds _ _ _ _ hmeta exOld
-  · rw [h]; exact imgOK_file cmds _ _ _ _ (Nat.zero_le _) exOld
-  · rw [h]; exact imgOK_file cmds _ _ _ _ (by rw [hla]; exact Nat.le_refl _) exOld
-  · rw [h]; exact imgOK_file cmds _ _ _ _ (by rw [hla]; exact Nat.le_refl _) exNew
+  · rw [h]; exact imgOK_file cmds _ _ _ _ hmeta exOld (fun e => Or.inl (hwm e))
+  · rw [h]; exact imgOK_file cmds _ _ _ _ (Nat.zero_le _) exOld (fun _ => Or.inr rfl)
+  · rw [h]; exact imgOK_file cmds _ _ _ _ hlan exOld (fun _ => Or.inl hla)
+  · rw [h]; exact imgOK_file cmds _ _ _ _ hlan exNew (fun _ => Or.inl hla)
 
 /-- File `flush()` from a good state. -/
 theorem flushSteps_ok {s : St} (g : Good s) (he : s.eng = .file) :
     Good (flushSteps s).1 ∧ (flushSteps s).1.cmds = s.cmds ∧ (flushSteps s).1.eng = .file ∧
-      (flushSteps s).1.wal = s.wal ∧ (flushSteps s).1.data = s.data ∧ (flushSteps s).1.la = s.la ∧
-      (flushSteps s).1.dData = s.data ∧ (flushSteps s).1.dMeta = s.la ∧
       ∀ i ∈ (flushSteps s).2, ImgOK .file s.cmds i := by
   obtain ⟨eng, cmds, data, la, due, dData, dMeta, wal⟩ := s
   cases he
@@ -236,20 +256,22 @@ theorem flushSteps_ok {s : St} (g : Good s) (he : s.eng = .file) :
   have hla : la = cmds.length := g.la_eq
   have hdata : sameKv data (ref cmds cmds.length) := g.data_ok
   have hmeta : dMeta ≤ cmds.length := g.meta_le
+  have hwm : wal = [] → dMeta = cmds.length := g.wal_meta rfl
   have exNew : ∃ w0 d, w0 ≤ d ∧ d ≤ cmds.length ∧ wal = (recs [] cmds).drop w0 ∧
       sameKv data (ref cmds d) := ⟨w0, cmds.length, Nat.le_trans h1 h2, Nat.le_refl _, hw, hdata⟩
-  refine ⟨⟨hla, hdata, by simp [flushSteps, hla], fun _ => exNew⟩, rfl, rfl, rfl, rfl, rfl, rfl, rfl, ?_⟩
+  refine ⟨⟨hla, hdata, by simp [flushSteps, hla], fun _ => exNew, fun _ _ => by simp [flushSteps, hla],
+    (fun e => nomatch e)⟩, rfl, rfl, ?_⟩
   intro i hi
   simp only [flushSteps, img, List.mem_cons, List.mem_nil_iff, or_false] at hi
   rcases hi with h | h
-  · rw [h]; exact imgOK_file cmds _ _ _ _ hmeta exNew
-  · rw [h]; exact imgOK_file cmds _ _ _ _ (by rw [hla]; exact Nat.le_refl _) exNew
+  · rw [h]; exact imgOK_file cmds _ _ _ _ hmeta exNew (fun e => Or.inl (hwm e))
+  · rw [h]; exact imgOK_file cmds _ _ _ _ (by rw [hla]; exact Nat.le_refl _) exNew (fun _ => Or.inl hla)
 
 theorem step_cmds_ext (s : St) (op : Op) : ∃ t, (step s op).1.cmds = s.cmds ++ t := by
   obtain ⟨eng, cmds, data, la, due, dData, dMeta, wal⟩ := s
   cases eng <;> cases op <;> simp only [step]
   case file.apply c => split <;> exact ⟨[c], rfl⟩
-  case file.reopen => split <;> exact ⟨[], by simp [flushSteps]⟩
+  case file.reopen => split <;> exact ⟨[], by simp [flushSteps, ckptSteps]⟩
   case rocks.apply c => exact ⟨[c], rfl⟩
   all_goals exact ⟨[], by simp [ckptSteps, flushSteps]⟩
 
@@ -264,21 +286,28 @@ theorem step_ok {s : St} (g : Good s) (op : Op) :
   cases eng with
   | rocks =>
     have noFile : ∀ (P : Prop), Eng.rocks = Eng.file → P := fun _ e => nomatch e
+    have hrm : dMeta = cmds.length := g.rocks_meta rfl
     cases op with
     | apply c =>
       simp only [step]
-      refine ⟨⟨by simp, ?_, ?_, noFile _⟩, (by first | rfl | trivial), by simp⟩
+      refine ⟨⟨by simp, ?_, ?_, noFile _, (fun e => nomatch e), fun _ => by simp⟩,
+        (by first | rfl | trivial), by simp⟩
       · show sameKv (applyCmd data c).1 (ref (cmds ++ [c]) (cmds ++ [c]).length)
         rw [ref_snoc_full]; exact (applyCmd_congr hdata c).1
-      · show dMeta ≤ (cmds ++ [c]).length
-        rw [List.length_append]; exact Nat.le_succ_of_le hmeta
-    | ckpt => exact ⟨⟨hla, hdata, by simp [step, hla], noFile _⟩, (by first | rfl | trivial), by simp [step]⟩
-    | flush => exact ⟨⟨hla, hdata, by simp [step, hla], noFile _⟩, (by first | rfl | trivial), by simp [step]⟩
-    | reopen => exact ⟨⟨hla, hdata, by simp [step, hla], noFile _⟩, (by first | rfl | trivial), by simp [step]⟩
-    | tick => exact ⟨⟨hla, hdata, hmeta, noFile _⟩, (by first | rfl | trivial), by simp [step]⟩
+      · show cmds.length + 1 ≤ (cmds ++ [c]).length
+        simp
+    | ckpt => exact ⟨⟨hla, hdata, by simp [step, hla], noFile _, (fun e => nomatch e), fun _ => by simp [step, hla]⟩,
+        (by first | rfl | trivial), by simp [step]⟩
+    | flush => exact ⟨⟨hla, hdata, by simp [step, hla], noFile _, (fun e => nomatch e), fun _ => by simp [step, hla]⟩,
+        (by first | rfl | trivial), by simp [step]⟩
+    | reopen => exact ⟨⟨hla, hdata, by simp [step, hla], noFile _, (fun e => nomatch e), fun _ => by simp [step, hla]⟩,
+        (by first | rfl | trivial), by simp [step]⟩
+    | tick => exact ⟨⟨hla, hdata, hmeta, noFile _, (fun e => nomatch e), fun _ => hrm⟩,
+        (by first | rfl | trivial), by simp [step]⟩
   | file =>
     obtain ⟨w0, d, h1, h2, hw, hdd⟩ := g.disk rfl
     dsimp only at h2 hw hdd
+    have hwm : wal = [] → dMeta = cmds.length := g.wal_meta rfl
     have hw0 : w0 ≤ cmds.length := Nat.le_trans h1 h2
     cases op with
     | apply c =>
@@ -294,11 +323,14 @@ theorem step_ok {s : St} (g : Good s) (op : Op) :
         rw [List.length_append]; exact Nat.le_succ_of_le hmeta
       have hdata2 : sameKv (applyCmd data c).1 (ref (cmds ++ [c]) (cmds ++ [c]).length) := by
         rw [ref_snoc_full]; exact (applyCmd_congr hdata c).1
+      have hne : wal ++ [outcome data c] = [] → False := fun e => append_singleton_ne_nil _ _ e
       have i1 : ImgOK .file (cmds ++ [c])
           { name := "apply:wal-appended", n := (cmds ++ [c]).length, dData := dData, dMeta := dMeta,
-            wal := wal ++ [outcome data c] } := imgOK_file _ _ _ _ _ hmeta1 hdisk1
+            wal := wal ++ [outcome data c] } :=
+        imgOK_file _ _ _ _ _ hmeta1 hdisk1 (fun e => (hne e).elim)
       have g2 : Good (St.mk .file (cmds ++ [c]) (applyCmd data c).fst (cmds ++ [c]).length due dData dMeta
-          (wal ++ [outcome data c])) := ⟨rfl, hdata2, hmeta1, fun _ => hdisk1⟩
+          (wal ++ [outcome data c])) :=
+        ⟨rfl, hdata2, hmeta1, fun _ => hdisk1, fun _ e => (hne e).elim, (fun e => nomatch e)⟩
       cases due with
       | false =>
         simp only [step, img]
@@ -321,10 +353,11 @@ theorem step_ok {s : St} (g : Good s) (op : Op) :
       exact ⟨gk, hke, by rw [hk]; exact hi⟩
     | flush =>
       simp only [step]
-      obtain ⟨gk, hk, hke, _, _, _, _, _, hi⟩ := flushSteps_ok g rfl
+      obtain ⟨gk, hk, hke, hi⟩ := flushSteps_ok g rfl
       exact ⟨gk, hke, by rw [hk]; exact hi⟩
     | reopen =>
-      -- Drop: metadata first, then flush; reopen replays the kept WAL over the persisted data
+      -- Drop: metadata first, then flush; reopen replays the kept WAL over the persisted data and
+      -- writes the recovered state as a checkpoint
       have exOld : ∃ w0 d, w0 ≤ d ∧ d ≤ cmds.length ∧ wal = (recs [] cmds).drop w0 ∧
           sameKv dData (ref cmds d) := ⟨w0, d, h1, h2, hw, hdd⟩
       have hlan : la ≤ cmds.length := by rw [hla]; exact Nat.le_refl _
@@ -332,30 +365,39 @@ theorem step_ok {s : St} (g : Good s) (op : Op) :
           sameKv data (ref cmds d) := ⟨w0, cmds.length, hw0, Nat.le_refl _, hw, hdata⟩
       have hrep : sameKv (applyAll data wal) (ref cmds cmds.length) := by
         rw [hw]; exact replay_tail cmds w0 cmds.length hw0 (Nat.le_refl _) _ hdata
-      have exNew : ∃ w0 d, w0 ≤ d ∧ d ≤ cmds.length ∧ ([] : List Cmd) = (recs [] cmds).drop w0 ∧
-          sameKv data (ref cmds d) :=
-        ⟨cmds.length, cmds.length, Nat.le_refl _, Nat.le_refl _, (drop_recs_all cmds).symm, hdata⟩
+      have iM : ImgOK .file cmds
+          { name := "persist_metadata_sync:written", n := cmds.length, dData := dData, dMeta := la, wal := wal } :=
+        imgOK_file cmds _ _ _ _ hlan exOld (fun _ => Or.inl hla)
+      have iD : ∀ name, ImgOK .file cmds { name := name, n := cmds.length, dData := data, dMeta := la, wal := wal } :=
+        fun name => imgOK_file cmds _ _ _ _ hlan exData (fun _ => Or.inl hla)
       simp only [step, flushSteps, recover, img]
       by_cases hwe : wal.isEmpty = true
       · simp only [hwe, if_true]
-        refine ⟨⟨hla, hrep, hlan, fun _ => exData⟩, (by first | rfl | trivial), ?_⟩
+        refine ⟨⟨hla, hrep, hlan, fun _ => exData, fun _ _ => hla, (fun e => nomatch e)⟩,
+          (by first | rfl | trivial), ?_⟩
         intro i hi'
         simp only [List.mem_cons, List.mem_append, List.mem_nil_iff, or_false] at hi'
         rcases hi' with h | h | h
-        · rw [h]; exact imgOK_file cmds _ _ _ _ hlan exOld
-        · rw [h]; exact imgOK_file cmds _ _ _ _ hlan exData
-        · rw [h]; exact imgOK_file cmds _ _ _ _ hlan exData
+        · rw [h]; exact iM
+        · rw [h]; exact iD _
+        · rw [h]; exact iD _
       · simp only [hwe, Bool.false_eq_true, if_false]
-        refine ⟨⟨hla, hrep, hlan, fun _ => exNew⟩, (by first | rfl | trivial), ?_⟩
+        have hmax : max la cmds.length = cmds.length := by rw [hla]; exact Nat.max_self _
+        have gmid : Good (St.mk .file cmds (applyAll data wal) (max la cmds.length) false data la wal) :=
+          ⟨hmax, hrep, hlan, fun _ => exData, fun _ _ => hla, (fun e => nomatch e)⟩
+        obtain ⟨gk, hk, hke, hi⟩ := ckptSteps_ok gmid rfl
+        refine ⟨gk, hke, ?_⟩
         intro i hi'
+        rw [hk]
         simp only [List.mem_cons, List.mem_append, List.mem_nil_iff, or_false] at hi'
         rcases hi' with h | (h | h) | h
-        · rw [h]; exact imgOK_file cmds _ _ _ _ hlan exOld
-        · rw [h]; exact imgOK_file cmds _ _ _ _ hlan exData
-        · rw [h]; exact imgOK_file cmds _ _ _ _ hlan exData
-        · rw [h]; exact imgOK_file cmds _ _ _ _ hlan exNew
+        · rw [h]; exact iM
+        · rw [h]; exact iD _
+        · rw [h]; exact iD _
+        · exact hi i h
     | tick =>
-      exact ⟨⟨hla, hdata, hmeta, fun _ => ⟨w0, d, h1, h2, hw, hdd⟩⟩, (by first | rfl | trivial), by simp [step]⟩
+      exact ⟨⟨hla, hdata, hmeta, fun _ => ⟨w0, d, h1, h2, hw, hdd⟩, fun _ => hwm, (fun e => nomatch e)⟩,
+        (by first | rfl | trivial), by simp [step]⟩
 
 theorem exec_cons (s : St) (op : Op) (ops : List Op) : exec s (op :: ops) = exec (step s op).1 ops := rfl
 
